@@ -6,14 +6,26 @@ import props
 
 @props.prop('C18')
 def c18(tier):
+    import gcs, vlib
     q = tier == 'quick'
+    gcov = {}
+
+    def structural(verdict, sessions, wd):
+        # the intern table must be exactly the set of allocated symbol cells, by name, before and after
+        # every sampled collection of symbol-producing sessions
+        plans = [
+            {'kind': 'sym', 'count': 6 if q else 150, 'period': 3, 'every': 40 if q else 30, 'maxev': 30},
+            {'kind': 'sym', 'count': 3 if q else 50, 'period': 1, 'every': 60 if q else 40, 'maxev': 30},
+        ]
+        gcov.update(gcs.run(verdict, wd, tier, plans, vlib.seed()))
+
     plan = [
         {'kind': 'sym', 'count': 150 if q else 6000, 'cfgs': 'gc' if q else 'gcall', 'shards': 1 if q else 12},
         {'kind': 'sym', 'count': 350 if q else 14000, 'cfgs': 'basic', 'shards': 1 if q else 8},
     ]
 
     def relevant(mm, sess, runs):
-        return mm['kind'] == 'conformance'
+        return mm['kind'] in ('conformance', 'abort')
 
     def extra(sessions, ends):
         routes = {}
@@ -22,7 +34,7 @@ def c18(tier):
                 for t in s.get('tags', []):
                     if t.startswith('route:'):
                         routes[t[6:]] = routes.get(t[6:], 0) + 1
-        return {'route_pairs': routes}
+        return {'route_pairs': routes, 'intern_table_snapshots': gcov}
 
     return props.cek_property(
         'C18', tier, plan, relevant,
@@ -31,4 +43,4 @@ def c18(tier):
         'delimiters, backslash, digit-initial, whitespace, escapes-lookalikes, non-ASCII, 300 characters) and random '
         'code points; equal and different names; first production kept or dropped; within one form or across forms; '
         'run under forced-collection schedules; eq?, memq and the round trips are observed inside the language',
-        extra_cov=extra)
+        extra_cov=extra, extra_check=structural)
